@@ -113,3 +113,54 @@ def op_test(path, value, data):
     if not json_equal(obj, value):
         raise JSONPatchTestFailure
     return data
+
+
+def op_move(source, dest, data):
+    """4.4: remove at `from`, then add the removed value at `path`; a location cannot be moved into
+    one of its children."""
+    if dest.is_relative_to(source):
+        raise JSONPatchError("can't move a value into one of its own children")
+    parent, obj = source.resolve_parent(data)
+    if obj is UNDEFINED:
+        raise JSONPatchError("the from location must exist")
+    if parent is None:
+        # the whole document: every other destination is one of its children (refused above), so
+        # this is the document moved onto itself
+        return obj
+    remove_from(parent, source.parts[-1])
+    return op_add(dest, obj, data)
+
+
+def op_copy(source, dest, data):
+    """4.5: add a copy of the value at `from` at `path` (independent of its source)."""
+    parent, obj = source.resolve_parent(data)
+    if obj is UNDEFINED:
+        raise JSONPatchError("the from location must exist")
+    return op_add(dest, copy.deepcopy(obj), data)
+
+
+# ---- documented variants (C15)
+
+def op_addne(path, value, data):
+    """`addne`: as add, but an existing object member is left untouched."""
+    parent, obj = path.resolve_parent(data)
+    if parent is None:
+        return value
+    if isinstance(parent, dict):
+        if member_name(path.parts[-1]) in parent:
+            return data
+    insert_into(parent, path.parts[-1], value)
+    return data
+
+
+def op_addap(path, value, data):
+    """`addap`: as add, but append when the array index cannot be resolved."""
+    parent, obj = path.resolve_parent(data)
+    if parent is None:
+        return value
+    if isinstance(parent, list):
+        if obj is UNDEFINED:
+            parent.append(value)
+            return data
+    insert_into(parent, path.parts[-1], value)
+    return data
